@@ -7,6 +7,7 @@ import (
 	"fmt"
 	"strconv"
 	"strings"
+	"unicode/utf8"
 
 	"github.com/PelicanPlatform/classad/classad"
 )
@@ -609,30 +610,42 @@ func parseAndInsertExpression(ad *classad.ClassAd, exprStr string) error {
 
 // tryInsertLiteral attempts fast parsing of simple literal values
 // This mirrors HTCondor's fast path optimizations in getClassAd()
+//
+// The fast path must read a text exactly as the full ClassAd parser would, so it only
+// fires on a text that is ONE literal token of the ClassAd lexer (optionally a '-' in
+// front of a number); everything else -- including texts the lexer rejects, such as
+// `007`, `1.`, `0x1.8p1` or `1_0.5`, which strconv alone would accept -- goes to the
+// full parser, which either parses it or reports the error.
 func tryInsertLiteral(ad *classad.ClassAd, attr, valueStr string) error {
-	// Boolean literals
-	switch strings.ToUpper(strings.TrimSpace(valueStr)) {
-	case "TRUE":
+	// Boolean literals. The keywords are ASCII: strings.ToUpper/EqualFold would also
+	// fold U+017F (long s) into 'S' and accept a word the parser rejects.
+	switch trimmed := strings.TrimSpace(valueStr); {
+	case asciiEqualFold(trimmed, "true"):
 		_ = ad.Set(attr, true) // ClassAd.Set always returns nil, safe to ignore
 		return nil
-	case "FALSE":
+	case asciiEqualFold(trimmed, "false"):
 		_ = ad.Set(attr, false) // ClassAd.Set always returns nil, safe to ignore
 		return nil
 	}
 
 	// Number literals
 	if len(valueStr) > 0 && (valueStr[0] == '-' || (valueStr[0] >= '0' && valueStr[0] <= '9')) {
+		num := strings.TrimSpace(valueStr)
 		// Try integer first
 		if !strings.Contains(valueStr, ".") {
-			if val, err := strconv.ParseInt(strings.TrimSpace(valueStr), 10, 64); err == nil {
-				_ = ad.Set(attr, val) // ClassAd.Set always returns nil, safe to ignore
-				return nil
+			if isIntegerLiteralText(num) {
+				if val, err := strconv.ParseInt(num, 10, 64); err == nil {
+					_ = ad.Set(attr, val) // ClassAd.Set always returns nil, safe to ignore
+					return nil
+				}
 			}
 		} else {
 			// Try float
-			if val, err := strconv.ParseFloat(strings.TrimSpace(valueStr), 64); err == nil {
-				_ = ad.Set(attr, val) // ClassAd.Set always returns nil, safe to ignore
-				return nil
+			if isRealLiteralText(num) {
+				if val, err := strconv.ParseFloat(num, 64); err == nil {
+					_ = ad.Set(attr, val) // ClassAd.Set always returns nil, safe to ignore
+					return nil
+				}
 			}
 		}
 	}
@@ -640,9 +653,11 @@ func tryInsertLiteral(ad *classad.ClassAd, attr, valueStr string) error {
 	// String literals (quoted)
 	trimmed := strings.TrimSpace(valueStr)
 	if len(trimmed) >= 2 && trimmed[0] == '"' && trimmed[len(trimmed)-1] == '"' {
-		// Simple string without escape sequences
+		// Simple string: a single quoted token without escape sequences. An interior
+		// quote means the text is not one string literal (`"a" + "b"`, `"a" "b"`), and
+		// the lexer replaces invalid UTF-8, so both are left to the full parser.
 		unquoted := trimmed[1 : len(trimmed)-1]
-		if !strings.Contains(unquoted, "\\") {
+		if !strings.ContainsAny(unquoted, "\\\"") && utf8.ValidString(unquoted) {
 			_ = ad.Set(attr, unquoted) // ClassAd.Set always returns nil, safe to ignore
 			return nil
 		}
@@ -650,6 +665,72 @@ func tryInsertLiteral(ad *classad.ClassAd, attr, valueStr string) error {
 
 	// Not a simple literal, caller should use full parser
 	return fmt.Errorf("not a simple literal")
+}
+
+// asciiEqualFold reports whether s equals the ASCII lower-case word under ASCII-only
+// case folding.
+func asciiEqualFold(s, lowerWord string) bool {
+	if len(s) != len(lowerWord) {
+		return false
+	}
+	for i := 0; i < len(s); i++ {
+		c := s[i]
+		if c >= 'A' && c <= 'Z' {
+			c += 'a' - 'A'
+		}
+		if c != lowerWord[i] {
+			return false
+		}
+	}
+	return true
+}
+
+// countDigits returns the number of leading ASCII digits of s.
+func countDigits(s string) int {
+	n := 0
+	for n < len(s) && s[n] >= '0' && s[n] <= '9' {
+		n++
+	}
+	return n
+}
+
+// isIntegerLiteralText reports whether s is an optional '-' followed by an integer
+// literal of the ClassAd lexer: decimal digits, no leading zero except "0" itself.
+func isIntegerLiteralText(s string) bool {
+	s = strings.TrimPrefix(s, "-")
+	n := countDigits(s)
+	if n == 0 || n != len(s) {
+		return false
+	}
+	return n == 1 || s[0] != '0'
+}
+
+// isRealLiteralText reports whether s is an optional '-' followed by a real literal of
+// the ClassAd lexer with a decimal point: digits '.' digits [ (e|E) [+|-] digits ].
+func isRealLiteralText(s string) bool {
+	s = strings.TrimPrefix(s, "-")
+	n := countDigits(s)
+	if n == 0 || n >= len(s) || s[n] != '.' {
+		return false
+	}
+	s = s[n+1:]
+	n = countDigits(s)
+	if n == 0 {
+		return false
+	}
+	s = s[n:]
+	if s == "" {
+		return true
+	}
+	if s[0] != 'e' && s[0] != 'E' {
+		return false
+	}
+	s = s[1:]
+	if s != "" && (s[0] == '+' || s[0] == '-') {
+		s = s[1:]
+	}
+	n = countDigits(s)
+	return n > 0 && n == len(s)
 }
 
 // decodeOldClassAdString decodes the content between the quotes of an OLD-ClassAd
